@@ -376,6 +376,14 @@ func checkTrans(c transCase, o *pbt.Rec) pbt.Verdict {
 			return fmt.Sprintf("\nstep %d of the history: %s\nvariables: %s\noperationName: %q\nengine: %s\n got data:  %s\n want data: %s\n got errors:  %s\n want errors: %s\n got requests:\n   %s\n fresh default engine requests:\n   %s",
 				si, op.Query, op.VarsJSON(), op.OperationName, name, got.data, want.data, got.errs, want.errs, strings.Join(got.reqs, "\n   "), strings.Join(want.reqs, "\n   "))
 		}
+		// two fetches on one response path see each other's merged items, so which of them finds
+		// something to send depends on the completion order of that run
+		twins := false
+		if p, err := shared.Plan(op); err == nil {
+			if sp, ok := p.(*plan.SynchronousResponsePlan); ok && sp.Response != nil && sp.Response.Fetches != nil {
+				twins = ftree.PathTwins(sp.Response.Fetches)
+			}
+		}
 		if s.Ren {
 			// renaming the variables (alpha-equivalent request) never changes the response: the
 			// renamed request on a fresh engine against the original spelling on a fresh engine
@@ -386,6 +394,11 @@ func checkTrans(c transCase, o *pbt.Rec) pbt.Verdict {
 				}
 				base := exec(f2, orig)
 				f2.Close()
+				if base.bad == "" && base.data == want.data && base.nerrs != want.nerrs && twins {
+					// same as below: two runs of a plan with path twins differ in a redundant
+					// request and, with it, in a repeated error entry
+					return pbt.BadKnown(fScheduledTwin, "the error list differs between the runs of a request and of its renamed spelling (same data, plan with path twins)\n original errors: %s\n renamed errors: %s\n renamed: %s", base.errs, want.errs, op.Query)
+				}
 				if base.bad == "" && (base.data != want.data || base.nerrs != want.nerrs) {
 					return pbt.Bad("renaming the variables of a request changes its response\n original: %s\n variables: %s\n  data: %s\n  errors: %s\n  requests:\n   %s\n renamed: %s\n variables: %s\n  data: %s\n  errors: %s\n  requests:\n   %s",
 						orig.Query, orig.VarsJSON(), base.data, base.errs, strings.Join(base.reqs, "\n   "), op.Query, op.VarsJSON(), want.data, want.errs, strings.Join(want.reqs, "\n   "))
@@ -396,14 +409,6 @@ func checkTrans(c transCase, o *pbt.Rec) pbt.Verdict {
 		got := exec(shared, op)
 		if got.bad != "" {
 			return pbt.Bad("the long-lived engine fails on a request a fresh engine answers: %s%s", got.bad, ctx("shared default", got))
-		}
-		// two fetches on one response path see each other's merged items, so which of them finds
-		// something to send depends on the completion order of that run
-		twins := false
-		if p, err := shared.Plan(op); err == nil {
-			if sp, ok := p.(*plan.SynchronousResponsePlan); ok && sp.Response != nil && sp.Response.Fetches != nil {
-				twins = ftree.PathTwins(sp.Response.Fetches)
-			}
 		}
 		if got.data == want.data && got.errs != want.errs && twins {
 			// the redundant request of a path twin selected an err_ field: the data is the same but
